@@ -170,14 +170,14 @@ type c14Result struct {
 	// PatternL18: the interleaving contains the racing pair of known finding L18 (a Send's critical section
 	// inside a receive call's check-to-store window on the same topic, or a receive call that begins a message
 	// on a topic while a Send on it is between its unlock and its return).
-	PatternL18  bool
-	Fail        *vh.Failure
-	Branching   []int
-	Overlap     bool
-	Interleave  string
-	Full        string
-	Steps       int
-	Excluded    bool
+	PatternL18 bool
+	Fail       *vh.Failure
+	Branching  []int
+	Overlap    bool
+	Interleave string
+	Full       string
+	Steps      int
+	Excluded   bool
 }
 
 func c14Topic(i int) []byte {
@@ -227,11 +227,11 @@ func c14Execute(c c14Case, choices []int) *c14Result {
 
 	var handed []c14Msg // messages given to the box, in call order per thread
 	var hmu sync.Mutex
-	inSend := map[int]int{}      // topic -> number of Send calls currently in flight
-	inWindow := map[int]int{}    // topic -> receive calls currently between the started-check and the store
+	inSend := map[int]int{}   // topic -> number of Send calls currently in flight
+	inWindow := map[int]int{} // topic -> receive calls currently between the started-check and the store
 	sentOn := map[int]bool{}
 	var threads []*coThread
-	var thTopic = map[*coThread]func() int{} // topic the thread is currently working on
+	var thTopic = map[*coThread]func() int{}   // topic the thread is currently working on
 	var nextTopic = map[*coThread]func() int{} // receive threads: topic of the message the thread will start next (-1 = none)
 
 	for _, r := range c.Recv {
